@@ -85,6 +85,10 @@ static void h14_body(int t) { static const char *const d[3] = { "AAA", "Abarth",
 static void h15_prep(void) { obj_setup(0, 0, 1); obj_setup(1, 1, 0); obj_setup(2, 3, 1); }
 static void h15_body(int t) { static const char *const a[3] = { "a@[0.0.0.0]", "b@[IPv6:::0.0.0.1]", "c@[0.1.2.3]" }; do_email(t, a[t]); do_email(t, a[t]); }
 
+/* H16: rooted names with different last labels in the ASCII modes (the root dot has its own branch in the reserved-name test), twice per thread */
+static void h16_prep(void) { obj_setup(0, 0, 1); obj_setup(1, 2, 1); obj_setup(2, 1, 1); }
+static void h16_body(int t) { static const char *const a[3] = { "u@mail.test.", "u@mail.info.", "u@a.onion." }; do_email(t, a[t]); do_email(t, a[t]); }
+
 static harness_t H[] = {
     { "H1-two-6531-idn-validations", 2, h1_prep, h1_body, free_objs },
     { "H2-6531-vs-822", 2, h2_prep, h2_body, free_objs },
@@ -101,6 +105,7 @@ static harness_t H[] = {
     { "H13-part-validators-with-mid-buffer-end-pointers", 2, h13_prep, h13_body, NULL },
     { "H14-tld-lookups-with-capitals", 2, h3_prep, h14_body, NULL },
     { "H15-literals-with-zero-first-octet", 2, h15_prep, h15_body, free_objs },
+    { "H16-rooted-names-different-last-labels", 2, h16_prep, h16_body, free_objs },
     { "T1-three-threads-reserved-names", 3, h3_prep, h3_body, NULL },
     { "T2-three-threads-is_tld", 3, h3_prep, h4_body, NULL },
     { "T3-three-threads-6531-822-5322", 3, h2_prep, h2_body, free_objs },
